@@ -83,7 +83,7 @@ fn fixpoint(n: usize) {
     std::mem::forget(out);
 }
 
-//@ harness: o9_3_merge_fixpoint_3 props=C09,C10,C01 tier=quick obl=O9.3 timeout=1200 mem=12
+//@ harness: o9_3_merge_fixpoint_3 props=C09,C10,C01 tier=quick obl=O9.3 timeout=800 mem=12
 //@ desc: generic Merge::merge_recursive/second_pass_merge on 3 symbolic elements (closed integer intervals in 0..12, merge = union when touching): the result is pairwise unmergeable (a fixpoint), covers exactly the union of the inputs, and the recursion terminates within 4 levels (unwinding assertion); bounded-capacity Vec stubs
 //@ encodes: Merge::merge_recursive, Merge::second_pass_merge (generic default methods; instantiation: harness-defined interval type)
 #[kani::proof]
